@@ -14,7 +14,8 @@ cd $WT
 DEMO=$(ls $SRC/*_test.go $SRC/*_test.go.txt 2>/dev/null | head -1)
 DEMODIR=libvore
 [ -f $SRC/DEMODIR ] && DEMODIR=$(cat $SRC/DEMODIR)
-run_demo() { cp $DEMO $WT/$DEMODIR/ && (cd $WT/$DEMODIR && timeout 300 go test -count=1 -run "$(grep -o 'func Test[A-Za-z0-9_]*' $DEMO | sed 's/func //' | paste -sd'|')" . 2>&1 | tail -3); rc=$?; rm -f $WT/$DEMODIR/$(basename $DEMO); return $rc; }
+DEMOBASE=$(basename $DEMO .txt)
+run_demo() { cp $DEMO $WT/$DEMODIR/$DEMOBASE && (cd $WT/$DEMODIR && timeout 300 go test -count=1 -run "$(grep -o 'func Test[A-Za-z0-9_]*' $DEMO | sed 's/func //' | paste -sd'|')" . 2>&1 | tail -3); rc=$?; rm -f $WT/$DEMODIR/$DEMOBASE; return $rc; }
 echo "== demo WITHOUT the change"
 run_demo; without=$?
 git apply $SRC/patch.diff || { echo "PATCH DOES NOT APPLY"; exit 1; }
